@@ -79,6 +79,44 @@ def scale_programs(rng, quick):
     P.append(('many-conditional-groups', ''.join('#if %d > 3\nint c_%d;\n#elif defined(NOPE_%d)\nint d_%d;\n#else\nint e_%d;\n#endif\n' % (i % 7, i, i, i, i) for i in range(n)) + 'int main(void) { return 0; }\n'))
     return P
 
+def immediate_programs(rng, quick):
+    """constants on both sides of 2^31, 2^32 and 2^63 in every position where the code generator may write an immediate or a displacement
+    (operands, scaled pointer arithmetic, case labels and ranges, bit-field masks, shifts, member offsets): the output must assemble"""
+    EDGE = [0x7f, 0x80, 0xff, 0x7fff, 0x8000, 0xffff, 0x7fffffff, 0x80000000, 0x80000001, 0xfffffffe, 0xffffffff, 0x100000000, 0x100000001, 0x7fffffffffffffff]
+    def K(signed=True):
+        v = rng.choice(EDGE) + rng.choice([0, 0, 1, -1, 7])
+        if signed and rng.random() < 0.4: return '(-%dL - %d)' % (max(v - 1, 0), 1) if v > 0 else '0L'
+        return ('%dL' % v) if signed and v <= 0x7fffffffffffffff else '%dUL' % (v & 0xffffffffffffffff)
+    P = []
+    for i in range(10 if quick else 60):
+        L = ['int printf(const char *, ...);', 'struct W { char pad[%d]; long m; char q[%d]; int z; } w;' % (rng.choice([127, 128, 32767, 32768, 70000]), rng.choice([1, 129, 40000]))]
+        cases = sorted({rng.choice(EDGE) + rng.randint(-2, 2) for _ in range(rng.randint(2, 7))})
+        L.append('static int sw(long x) { switch (x) { ' + ' '.join('case %dL: return %d;' % (c, j + 1) for j, c in enumerate(cases) if c <= 0x7fffffffffffffff)
+                 + ' case -%dL ... -%dL: return 90;' % (cases[0] + 9, cases[0] + 5) + ' default: return 0; } }')
+        ucases = sorted({(rng.choice(EDGE) * rng.choice([1, 2]) + rng.randint(0, 2)) & 0xffffffffffffffff for _ in range(rng.randint(2, 5))})
+        L.append('static int swu(unsigned long x) { switch (x) { ' + ' '.join('case %dUL: return %d;' % (c, j + 1) for j, c in enumerate(ucases)) + ' default: return 0; } }')
+        L.append('static int swi(unsigned x) { switch (x) { ' + ' '.join('case %dU: return %d;' % (c & 0xffffffff, j + 1) for j, c in enumerate(sorted({c & 0xffffffff for c in ucases}))) + ' default: return 0; } }')
+        wf, wg = rng.randint(31, 34), rng.randint(33, 64)
+        L.append('struct B { long f : %d; unsigned long g : %d; unsigned h : %d; } b;' % (wf, wg, rng.choice([31, 32])))
+        body = ['volatile long v = %s; volatile unsigned long u = %s; volatile int n = %d; long r = 0; unsigned long ur = 0; long arr[4] = {1, 2, 3, 4}; long *p = arr + 2; char *cp = (char *)arr;' % (K(), K(False), rng.choice([1, 31, 32, 33, 63]))]
+        for j in range(rng.randint(6, 14)):
+            k = rng.randrange(12)
+            if k == 0: body.append('r += v %s %s;' % (rng.choice(['+', '-', '*', '&', '|', '^']), K()))
+            elif k == 1: body.append('ur += u %s %s;' % (rng.choice(['+', '-', '*', '&', '|', '^', '/', '%']), K(False).replace('0UL', '3UL') if rng.random() < 0.1 else '%dUL' % (rng.choice(EDGE) + 1)))
+            elif k == 2: body.append('r += (v %s %s);' % (rng.choice(['<', '<=', '==', '!=', '>', '>=']), K()))
+            elif k == 3: body.append('r += (p + %s - %s == p) + (cp + %s - %s == cp);' % ((lambda c: (c, c))('%dL' % rng.choice([0x10000000, 0x0fffffff, 0x20000000, 0x7fffffff])) + (lambda c: (c, c))('%dL' % rng.choice(EDGE[6:13]))))
+            elif k == 4: body.append('v %s= %s;' % (rng.choice(['+', '-', '&', '|', '^']), K()))
+            elif k == 5: body.append('r += v << %d; ur += u >> %d; r += (long)(%s) >> n;' % (rng.choice([0, 1, 31, 32, 33, 63]), rng.choice([0, 1, 31, 32, 33, 63]), K()))
+            elif k == 6: body.append('b.f = %s; b.g = %s; b.h = %dU; r += b.f; ur += b.g + b.h;' % (K(), K(False), rng.choice(EDGE[:11])))
+            elif k == 7: body.append('r += sw(%s) + swu(%s) + swi(%dU);' % ('%dL' % rng.choice(cases) if cases[-1] <= 0x7fffffffffffffff else '1L', '%dUL' % rng.choice(ucases), rng.choice(ucases) & 0xffffffff))
+            elif k == 8: body.append('w.m = %s; w.z = n; w.q[%d] = 1; r += w.m + w.z + (long)((char *)&w.z - (char *)&w);' % (K(), 0))
+            elif k == 9: body.append('r += (v > %s ? %s : %s);' % (K(), K(), K()))
+            elif k == 10: body.append('r += (int)%s + (short)%s + (unsigned char)%s + (long)(unsigned)%s + (long)(int)u;' % (K(), K(), K(), K()))
+            else: body.append('{ long t[3] = {%s, %s, %s}; r += t[n & 1]; }' % (K(), K(), K()))
+        L.append('int main(void) { ' + '\n  '.join(body) + '\n  printf("%ld %lu\\n", r, ur); return 0; }')
+        P.append(('immediates-%d' % i, '\n'.join(L) + '\n'))
+    return P
+
 def main():
     run = Run(PID, THEOREMS)
     rng = run.rng
@@ -155,7 +193,7 @@ def main():
             else: e2 = e
             f = os.path.join(wd, 'trap%d.c' % tk); tk += 1; t = ctx % e2; open(f, 'w').write(t); jobs.append((f, t, 'trap'))
     # valid programs that are large in one dimension (table growth, tombstones, recursion depth, list and token length): must be accepted
-    for name, t in scale_programs(rng, run.quick()):
+    for name, t in scale_programs(rng, run.quick()) + immediate_programs(rng, run.quick()):
         f = os.path.join(wd, 'scale_%s.c' % name); open(f, 'w').write(t); jobs.append((f, t, 'scale:' + name))
     # raw byte strings for the lexer model
     for k in range(60 if run.quick() else 600):
